@@ -109,7 +109,10 @@ func body(c *mc.Ctx) {
 			cfg.Barriers, cfg.BarrierAfterReads = []uint64{1}, []int{b}
 		}
 	} else if p.focused {
-		sc = scenarios[c.Choose(2)]
+		sc = scenarios[1]
+		if p.thorough {
+			sc = scenarios[c.Choose(2)]
+		}
 		cfg.ReadSize = 1
 		cfg.Operators = 2
 		cfg.Batching = batching.EventBatcherParams{MaxSize: 2, MaxDelay: 10 * time.Millisecond}
